@@ -224,7 +224,23 @@ func c20RunSPM(c c20Case) (c20Info, error) {
 	}
 	v := c20SPMVocab(c)
 	spm := NewSentencePieceModel(v)
-	info, err := c20Oracle(c20NewTok(spm, v), c.text(), c.AddBOS, c.AddEOS)
+	tok := c20NewTok(spm, v)
+	warmed := false
+	if w, ok := c20EarlierText(c, tok.specials); ok && !strings.Contains(w, spmWhitespaceSep) {
+		// a tokenizer serves many texts: an earlier one (the same parts in reverse order, so other special literals come
+		// first) must leave nothing behind that changes the encoding of the next
+		if _, werr := c20Oracle(tok, w, c.AddBOS, c.AddEOS); werr != nil {
+			return c20Info{classes: []string{"earlier_text_on_same_tokenizer"}}, fmt.Errorf("earlier text on the same tokenizer: %v", werr)
+		}
+		warmed = true
+	}
+	info, err := c20Oracle(tok, c.text(), c.AddBOS, c.AddEOS)
+	if warmed {
+		info.classes = append(info.classes, "earlier_text_on_same_tokenizer")
+		if err != nil {
+			err = fmt.Errorf("after an earlier text on the same tokenizer: %v", err)
+		}
+	}
 	if c.NMerges > 0 {
 		info.classes = append(info.classes, "per_case_merges")
 		if c.ScoreMode == 1 || c.ScoreMode == 2 {
